@@ -218,7 +218,10 @@ termination_by chain.length - i
     }
     ```
     The cursor lives in the state (`St.cur`). `orig = some m0` models the server message chain, which
-    forwarded the ORIGINAL request instead of the one given to `next`. The fuel bounds the nesting
+    forwarded the ORIGINAL request instead of the one given to `next`. (Checked against the real
+    pre-fix code, worktree at 96d5b20, through driver command `mw.old`: identical answers on every
+    generated server message / item chain, except item chains whose outermost stage returns a nil
+    item with an error — those dereferenced nil before 851aad4, which is not modelled here.) The fuel bounds the nesting
     depth: every nested entry increments the cursor, so `chain.length + 1` is never exhausted. -/
 def oldNext (chain : List Stage) (core : Next) (orig : Option Nat) : Nat → Next
   | 0 => fun _ _ s => (⟨none, some 9999⟩, s)
